@@ -88,8 +88,13 @@ fn secret(g: usize) -> Box<[u8]> {
     v.into_boxed_slice()
 }
 
+/// generations 3, 7, 11, … are empty key maps (every key revoked; Lean: `genEmpty`): replacing a
+/// non-empty set by an empty one must take effect like any other replacement
 fn make_keys(g: usize) -> TsigKeyMap {
     let mut m = TsigKeyMap::new();
+    if g % 4 == 3 {
+        return m;
+    }
     m.insert(name("key.test."), (Algorithm::HmacSha256, secret(g)));
     m
 }
